@@ -5,8 +5,9 @@
   removal) and the chain runner's treatment of an interrupted / raising step
   (bp/agent.py recv_bundle). Cryptographic per-target outcomes are a parameter (`Outcome`).
 
-  The code as it exists has four quirks that matter (DESIGN §8): they are switchable here
-  (`Quirks`), `Quirks.current` is the code under verification, `Quirks.fixed` the repaired code.
+  Four defects of this code (DESIGN §8: D15, D16, D22, D29) have been repaired in /repo; the old
+  behaviours remain expressible through the switches of `Quirks` (all off in `Quirks.current`, the
+  code under verification) so that a regression can be named.
   Import-free, executable.
 -/
 import DtnVerif.Model.Bytes
@@ -62,8 +63,10 @@ structure Quirks where
   noneRaises : Bool
   deriving Repr, DecidableEq, Inhabited
 
-def Quirks.current : Quirks := ⟨true, true, true, true⟩
-def Quirks.fixed : Quirks := ⟨false, false, false, false⟩
+/-- The code under verification: all four defects are repaired (fix commits 9f5b43d, f461ab6,
+    4c320af, 34748f5 of /repo). A switch set to `true` re-creates the corresponding old behaviour;
+    the C12 check uses that only to name a regression. -/
+def Quirks.current : Quirks := ⟨false, false, false, false⟩
 
 def typeBib : Nat := 11
 def typeBcb : Nat := 12
